@@ -48,3 +48,11 @@ func VerifAdapters(s *ServantProxy) []*AdapterProxy {
 
 // VerifTarsClient returns the transport client of an adapter (for transport.VerifClientState).
 func VerifTarsClient(adp *AdapterProxy) *transport.TarsClient { return adp.tarsClient }
+
+// VerifWarmAdapter makes the proxy's endpoint manager create the adapter proxy of its (single) endpoint, exactly as
+// the first call would, without sending anything: scenarios with several concurrent first callers then share one
+// adapter (two racing first callers may otherwise each create their own).
+func VerifWarmAdapter(s *ServantProxy) *AdapterProxy {
+	adp, _ := s.manager.SelectAdapterProxy(&Message{})
+	return adp
+}
